@@ -105,6 +105,19 @@ theorem parse_format (timeOk : Str → Bool) (m : Msg) (h : WF timeOk m) :
     parse timeOk (format m) = .ok (canon m) (format m) :=
   parse_format_of_tables timeOk m tagEscape_table_ok tagEscape_table_sep h
 
+/-- Copy-constructing without overrides is the identity on the four fields, and an overriding copy
+has exactly the overriding fields (tags always those of the original). -/
+theorem copy_identity (m : Msg) : copyCtor m [] [] [] = m := by
+  simp [copyCtor]
+
+theorem copy_fields (m : Msg) (p c : Str) (a : List Str) (hp : p ≠ []) (hc : c ≠ []) (ha : a ≠ []) :
+    copyCtor m p c a = ⟨p, c, a, m.tags⟩ := by
+  simp [copyCtor, hp, hc, ha]
+
+/-- Pickling round trip (`copy.copy`, `pickle`): a well-formed message unpickles to itself. -/
+theorem pickle_roundtrip (timeOk : Str → Bool) (m : Msg) (h : WF timeOk m) :
+    unpickle timeOk m = .ok (canon m) (format m) := parse_format timeOk m h
+
 /-- non-vacuity: a concrete message with prefix, middle and trailing arguments, an escaped tag value
 and an empty one meets `WF`; and the theorem's conclusion evaluates as stated on it. -/
 example : WF (fun _ => true)
